@@ -71,7 +71,9 @@ def gen_fmt(ctx):
         txt_lens = list(range(0, 1100)) + [4000, 65535, 65536]
     for n in txt_lens:
         add("rt_txt", rb(rng, n))
-    resp_lens = list(range(0, 4)) + [255, 256, 257, 1000, 65534, 65535, 65536, 65537, 70000]
+    resp_lens = list(range(0, 4)) + [255, 256, 257, 1000, 65535, 65536]
+    if not quick:
+        resp_lens += [65534, 65537, 70000]
     if not quick:
         resp_lens += list(range(4, 255, 7)) + [65535 + 256, 131072]
     for n in resp_lens:
@@ -168,7 +170,7 @@ def gen_names(ctx):
         read_name(buf + b"\x07trailer", offs[-1])
         if depth > 0:
             read_name(buf[:-1], offs[-1])       # pointer cut in half
-    for _ in range(60 if quick else 1500):
+    for _ in range(35 if quick else 1500):
         buf, starts = bytearray(rb(rng, rng.choice([0, 0, 1, 3, 12]))), []
         for _ in range(rng.randrange(1, 6)):
             starts.append(len(buf))
@@ -201,7 +203,7 @@ def gen_names(ctx):
     read_name(ptr(2) + ptr(0), 0)               # two-cycle
     read_name(b"", 0)
     read_name(b"\0", 5)
-    for _ in range(30 if quick else 600):       # plain random bytes
+    for _ in range(15 if quick else 600):       # plain random bytes
         n = rng.choice([1, 2, 3, 8, 30])
         read_name(bytes(rng.choice([0, 1, 2, 3, 0xC0, 0xC0, 0xC1, 0x40, 0x80, rng.getrandbits(8)]) for _ in range(n)),
                   rng.randrange(0, n + 1))
@@ -252,11 +254,13 @@ def gen_req(ctx):
         d = rb(rng, n)
         out.append(Case("b32", "requester", {"op": "b32", "data": d.hex()}, d))
     for dom in DOMAINS:
-        lens = sorted(set(list(range(0, 4)) + list(range(100, 160, 1 if not quick else 4)) + [223, 224, 255, 256]))
         # payload lengths around the point where the name stops fitting 255 octets for this domain
         room = 255 - wire_len(dom)
         edge = max(0, (room * 63 // 64) * 5 // 8)
-        lens = sorted(set(lens + list(range(max(0, edge - 4), edge + 5))))
+        if quick:
+            lens = sorted(set([0, 1, 3, 224, 256] + list(range(max(0, edge - 2), edge + 3))))
+        else:
+            lens = sorted(set(list(range(0, 4)) + list(range(100, 160)) + [223, 224, 255, 256] + list(range(max(0, edge - 4), edge + 5))))
         for n in lens:
             d = rb(rng, n)
             out.append(Case("send", "requester", {"op": "send", "data": d.hex(), "domain": hexl(dom)}, (d, dom)))
@@ -349,7 +353,7 @@ def gen_msg(ctx):
         if not quick or depth in (9, 10, 11):
             add(chain_msg(rng, depth, "an"))
             add(chain_msg(rng, depth, "mix"))
-    for _ in range(60 if quick else 1200):
+    for _ in range(40 if quick else 1200):
         m = empty_msg(rng)
         for sec in ("q", "an", "ns", "ar"):
             for _ in range(rng.choice([0, 0, 1, 1, 2, 3, 6])):
@@ -365,7 +369,7 @@ def gen_msg(ctx):
     m["ar"].append({"name": [], "type": 41, "class": 4096, "ttl": 0, "data": "", "dseed": 0, "dgen": 0})
     add(m)
     # offsets beyond 0x3fff: a large record in front, repeated names after it
-    for big in ([16383 - 40, 16383 - 25, 16383 - 12, 16400] if quick else [16383 - 40, 16383 - 30, 16383 - 20, 16384, 16400, 40000]):
+    for big in ([16383 - 40, 16383 - 12, 16400] if quick else [16383 - 40, 16383 - 30, 16383 - 20, 16384, 16400, 40000]):
         for _ in range(1 if quick else 6):
             m = empty_msg(rng)
             early = pname(rng, 4) or [b"early"]
@@ -376,7 +380,7 @@ def gen_msg(ctx):
                 m[rng.choice(["an", "ns", "ar"])].append(mk_rr(rng, n))
             add(m)
     # RDATA length limit
-    for n in ([65535, 65536] if quick else [65534, 65535, 65536, 65537, 70000]):
+    for n in ([65536] if quick else [65534, 65535, 65536, 65537, 70000]):
         m = empty_msg(rng)
         m["an"].append(mk_rr(rng, [b"big"], big=n))
         m["ns"].append(mk_rr(rng, [b"after", b"big"]))
@@ -399,7 +403,7 @@ def gen_msg_dec(ctx, wires):
 
     def add(d):
         out.append(Case("msg_dec", "dns", {"op": "msg_dec", "data": bytes(d).hex()}, bytes(d)))
-    for w in wires[: (40 if quick else 600)]:
+    for w in wires[: (25 if quick else 600)]:
         add(w)
         for _ in range(3 if quick else 6):
             b = bytearray(w)
@@ -418,7 +422,16 @@ def gen_msg_dec(ctx, wires):
             else:
                 b[4:6] = bytes([0, rng.randrange(4)])   # question count
             add(b)
-    for _ in range(20 if quick else 400):
+    hdr = bytes([0x12, 0x34, 0x01, 0x00, 0, 1, 0, 0, 0, 0, 0, 0])
+    add(hdr + bytes([0xC0, 12, 0, 16, 0, 1]))                 # question name = pointer to itself
+    add(hdr + bytes([0xC0, 14, 0xC0, 12, 0, 16, 0, 1]))       # two-cycle
+    add(hdr + bytes([1, 97, 0xC0, 12, 0, 16, 0, 1]))          # label then pointer back to the label: unbounded name
+    add(hdr + bytes([0x40, 0, 0, 16, 0, 1]))                  # reserved label type
+    add(hdr + bytes([0x80, 0, 0, 16, 0, 1]))
+    add(hdr + bytes([1, 97, 0, 0, 16, 0, 1, 0xFF]))           # trailing octet
+    add(hdr + bytes([1, 97, 0, 0, 16, 0]))                    # cut inside the class
+    add(hdr + bytes([0xC0, 0x3F]))                            # pointer beyond the buffer
+    for _ in range(15 if quick else 400):
         n = rng.choice([0, 1, 5, 11, 12, 13, 17, 40])
         b = bytearray(rb(rng, n))
         if n >= 12 and rng.random() < 0.8:
